@@ -78,6 +78,7 @@ S("boxed", "box_split_first_last", ["C16", "C06"], "split_first / split_last")
 S("boxed", "box_split_off_first_last", ["C16", "C06"], "split_off_first / split_off_last")
 S("boxed", "box_retain", ["C06", "C08"], "retain under every predicate (mask)")
 S("boxed", "box_drain", ["C06", "C08"], "drain(start..end) consumed 0..2 front / 0..1 back then dropped")
+S("boxed", "box_drain_keep_rest", ["C06", "C08"], "drain(start..end) consumed 0..2 front / 0..2 back then keep_rest()")
 S("boxed", "box_extract_if", ["C06", "C08"], "extract_if under every predicate, consumed 0..4 then dropped")
 S("boxed", "box_dedup_by", ["C06", "C08"], "dedup_by under every neighbour relation")
 S("boxed", "box_partition", ["C16", "C06"], "partition under every predicate")
@@ -88,6 +89,7 @@ S("boxed", "box_into_flattened", ["C16", "C06"], "BumpBox<[[E;2]]>::into_flatten
 S("boxed", "box_single_routes", ["C06"], "BumpBox<E>: drop / into_inner / leak / into_raw+from_raw")
 S("boxed", "box_zst_ops", ["C06", "C08", "C16"], "zero-sized elements: pop/truncate/remove/swap_remove/split_off/clear")
 
+S("boxed", "box_zst_iters", ["C06", "C08"], "zero-sized elements: drain(s..e) / drain + keep_rest / into_iter, not advanced, then dropped: total drop count")
 S("fixed", "fixed_try_push", ["C08", "C06", "C07"], "FixedBumpVec::try_push on every state (full => Err, value consumed once)")
 S("fixed", "fixed_try_insert", ["C08", "C06", "C07"], "FixedBumpVec::try_insert(i, x), i <= len")
 S("fixed", "fixed_remove_ops", ["C08", "C06"], "remove / swap_remove / pop / pop_if")
@@ -136,6 +138,8 @@ for name, inst in [
 H("kani-slice", "strings::str_validity_model_equals_core", ["C09"], stubbing=True, bounds="every byte string of length <= 4", inst="scalar UTF-8 validator == core::str::from_utf8(..).is_ok()", unwind=10, timeout_s=1200, mem_gb=4, note=SL_STUBS)
 H("kani-slice", "strings::panic_str_bad_index_core", ["C09"], tier="thorough", kind="must_panic", expect_fail=[r"assert_char_boundary|slice_error_fail|str::|remove|slice_index|slice_end|slice_start|panic"], stubbing=True, bounds=STB,
   inst="as panic_str_bad_index with core validity", unwind=10, timeout_s=3600, mem_gb=8, note=SL_STUBS)
+H("kani-slice", "strings::mustfail_str_range", ["C09", "C16"], kind="must_panic", expect_fail=[r"assert_char_boundary|slice_error_fail|slice_index_order_fail|slice_end_index_len_fail|slice_start_index_len_fail"], stubbing=True, bounds=STB,
+  inst="FixedBumpString::split_off / BumpBox<str>::split_off / drain with every range that is reversed, out of bounds or has an end inside a multi-byte char (empty ranges included)", unwind=10, timeout_s=1200, mem_gb=4, note=SL_STUBS)
 H("kani-slice", "strings::panic_str_bad_index", ["C09"], kind="must_panic", expect_fail=[r"assert_char_boundary|slice_error_fail|str::|remove|slice_index|slice_end|slice_start|panic"], stubbing=True, bounds=STB,
   inst="insert / insert_str / remove / truncate / replace_range with every index that is out of range or not a char boundary", unwind=10, timeout_s=1200, mem_gb=4, note=SL_STUBS)
 
@@ -174,6 +178,8 @@ for name, inst, tags, tier in [
     ("step_down1_set_noshrink_b0", "down, SHRINKS = false", OPS_ALL + ["b0"], "thorough"),
     ("step_up1_set_noshrink_b0", "up, SHRINKS = false", OPS_ALL + ["up", "b0"], "thorough"),
     ("step_down4_bump_b0", "down, MIN_ALIGN 4 (split + give back the lower part of a block whose end is not min-aligned)", OPS_ALL + ["b0"], "thorough"),
+    ("step_up8_grow_b0", "up, MIN_ALIGN 8: grow / grow_zeroed of the newest block only (in place up to the very end of the chunk, or a failure only when there is no room)", ["op2", "op3", "up", "b0"], "quick"),
+    ("step_up4_grow_nodealloc_b0", "up, MIN_ALIGN 4, WithoutDealloc: grow / grow_zeroed only", ["op2", "op3", "up", "b0"], "thorough"),
 ]:
     A("step", name, STEP_PROPS + ["C07"], inst, tags=tags, tier=tier, mem_gb=7, timeout_s=2400)
 SWB = "history <= 4 ops: new, symbolic fillers A and B (every legal position of the 16-byte chunk), ONE operation whose new layout is CONCRETE and cannot fit (chunk switch certain; base allocator grants chunk 2 = 112 B); unwind 6"
@@ -443,6 +449,45 @@ for name, props, inst, tags, tier in [
     ("vec_shrink_min_align_down1", ["C10", "C08"], "same, down, MIN_ALIGN 1", [], "thorough"),
 ]:
     A("vecs", name, props, inst, tags=tags, tier=tier, mem_gb=8, bounds="BumpVec with <= 4 elements in the 16-byte chunk, concrete shape, symbolic values / split point / follow-up; unwind 8")
+
+# BumpVec on the real arena, ONE operation from an arbitrary state (bvec.rs; loop-free bodies, unwind 3)
+BVB = "BumpVec<u8 | D(1 byte)> with CONCRETE capacity (2..8) in the 16-byte chunk, SYMBOLIC length <= capacity and symbolic element values, buffer newest or followed by another block (concrete per harness); ONE operation with symbolic arguments; budget 0 (growth in place / by moving inside the chunk / clean failure); unwind 3 (shrink: 5 for the statistics walk; into_iter, splice: 6)"
+for name, props, inst, tags, tier in [
+    ("bvec_push_up1_newest", ["C08", "C07"], "try_push, up, buffer newest (grows in place)", ["inplace"], "quick"),
+    ("bvec_push_up1_blocked", ["C08", "C07", "C02"], "try_push, up, another block behind the buffer (moves)", ["moved"], "thorough"),
+    ("bvec_push_down1_newest", ["C08", "C07", "C02"], "try_push, down (moves inside the chunk)", ["moved"], "quick"),
+    ("bvec_push_up1_full", ["C07", "C08"], "try_push, chunk full behind the buffer: growth fails cleanly", ["fail"], "quick"),
+    ("bvec_insert_up1_newest", ["C08", "C07"], "try_insert(i <= len, x), up, newest", [], "quick"),
+    ("bvec_insert_down1_blocked", ["C08", "C07"], "try_insert, down, blocked", [], "thorough"),
+    ("bvec_reserve_up1_newest", ["C08", "C07", "C13"], "try_reserve / try_reserve_exact(additional <= 12, or one of usize::MAX / isize::MAX / isize::MAX - 1), up, newest", [], "quick"),
+    ("bvec_reserve_down1_newest", ["C08", "C07", "C13"], "same, down", [], "thorough"),
+    ("bvec_reserve_up4_blocked", ["C08", "C07", "C13"], "same, up, MIN_ALIGN 4, blocked", ["fail"], "thorough"),
+    ("bvec_extend_up1_newest", ["C08", "C07"], "try_extend_from_slice_copy(<= 3 elements), up, newest", [], "quick"),
+    ("bvec_resize_up1_newest", ["C08", "C07"], "try_resize(new_len <= 8, x), up, newest", ["fail", "resize"], "thorough"),
+    ("bvec_append_up1_newest", ["C08", "C07"], "try_append([a, b]), up, newest", ["fail"], "thorough"),
+    ("bvec_extend_down1_blocked", ["C08", "C07"], "try_extend_from_slice_copy, down, blocked", ["fail"], "thorough"),
+    ("bvec_resize_down1_blocked", ["C08", "C07"], "try_resize, down, blocked", ["fail", "resize"], "thorough"),
+    ("bvec_shrink_up1_newest", ["C08", "C10", "C13", "C01", "C02"], "shrink_to_fit / shrink_to(any m) / into_boxed_slice / into_fixed_vec, up, newest", ["reclaim"], "quick"),
+    ("bvec_shrink_down8_newest", ["C08", "C10", "C13", "C01", "C02"], "same, down, MIN_ALIGN 8 > align_of::<u8>(), capacity 7 (nothing can be reclaimed: the position stays 8-aligned)", [], "quick"),
+    ("bvec_shrink_up4_newest", ["C08", "C10", "C13", "C01", "C02"], "same, up, MIN_ALIGN 4, capacity 7", ["reclaim"], "thorough"),
+    ("bvec_shrink_down1_blocked", ["C08", "C10", "C13"], "same, down, not the newest allocation: nothing reclaimed", [], "thorough"),
+    ("bvec_shrink_up1_set_noshrink", ["C13", "C08"], "same, SHRINKS = false: allocated() never decreases", [], "thorough"),
+    ("bvec_split_push_up1", ["C16", "C08", "C01"], "split_off(..at | at..) then try_push on the split-off part (grows / moves), up", [], "quick"),
+    ("bvec_split_shrink_up1", ["C16", "C08"], "split_off then shrink_to_fit of the split-off part, up", [], "thorough"),
+    ("bvec_split_drop_up1", ["C16", "C08", "C13"], "split_off then drop of the split-off part (deallocate), up", [], "quick"),
+    ("bvec_split_box_down1", ["C16", "C08"], "split_off then into_boxed_slice of the split-off part, down", [], "thorough"),
+    ("bvec_split_push_down1", ["C16", "C08", "C01"], "split_off then try_push on the split-off part, down", [], "thorough"),
+    ("bvec_split_drop_up8", ["C16", "C01", "C02", "C13"], "split_off then drop, up, MIN_ALIGN 8, capacity 8 (a part may end inside the min-align padding)", [], "thorough"),
+    ("bvec_split_push_up8", ["C16", "C01", "C02"], "split_off then try_push, up, MIN_ALIGN 8, capacity 8", [], "quick"),
+    ("bvec_push_drops_up1_newest", ["C06", "C08", "C13"], "BumpVec<D> (capacity 2): push / insert across growth moves (never drops); failed push consumes the value once; drop of the vector drops each once and gives the buffer back", [], "quick"),
+    ("bvec_push_drops_down1_blocked", ["C06", "C08"], "same, down, blocked", [], "thorough"),
+    ("bvec_push_drops_up1_full", ["C06", "C07"], "same, growth fails", ["fail"], "thorough"),
+    ("bvec_into_iter_up1", ["C06", "C08"], "BumpVec<D>::into_iter consumed 0..1 front / 0..1 back then dropped", [], "quick"),
+    ("bvec_splice_exact_fit_up1", ["C08"], "BumpVec<u8> capacity 4, 2 elements, splice(0..1, 3 elements): exact fit, no reallocation", [], "thorough"),
+    ("bvec_splice_exact_fit_down1", ["C08"], "same, down", [], "thorough"),
+]:
+    A("bvec", name, props, inst, tags=tags, tier=tier, mem_gb=8, timeout_s=1800, bounds=BVB)
+    HARNESSES[-1]["unwind"] = 6 if ("into_iter" in name or "splice" in name) else (5 if ("shrink" in name or "drops" in name) else 3)
 
 # slice-level typed entry points (C10 position clause, C13 opt-out, C17 typed vs dyn, C01/C02 for shrink_slice)
 for name, props, inst, tags, tier in [
